@@ -5,6 +5,7 @@ CONSTANTS
   PhTypes = {"Display", "Debug", "LowerHex", "LowerDebug"}
 INVARIANTS
   P_C05_Iff
+  P_C05_IffShared
   P_C05_Trait
   Emit
 CHECK_DEADLOCK FALSE
